@@ -142,7 +142,9 @@ func errTag(err error) string {
 	return "err:" + clip(err.Error(), 60)
 }
 
-func isNotStarted(err error) bool { return err != nil && strings.Contains(err.Error(), "server not started") }
+func isNotStarted(err error) bool {
+	return err != nil && strings.Contains(err.Error(), "server not started")
+}
 func isAlreadyStarted(err error) bool {
 	return err != nil && strings.Contains(err.Error(), "server already started")
 }
